@@ -182,6 +182,9 @@ func init() {
 		return in.tt.Ite(c.args[0].(*Term), c.args[1].(*Term), c.args[2].(*Term))
 	}
 	rtIntrinsics["vIteInt"] = rtIntrinsics["vIteInt64"]
+	rtIntrinsics["vB2U"] = func(in *Interp, c *callCtx) Value {
+		return in.tt.Ite(c.args[0].(*Term), in.tt.Const(64, 1), in.tt.Const(64, 0))
+	}
 	rtIntrinsics["vSame"] = func(in *Interp, c *callCtx) Value {
 		return in.deepEq(c.args[0], c.args[1], nil, map[[2]*Cell]bool{}, 0)
 	}
@@ -540,6 +543,9 @@ func (in *Interp) deepEq(a, b Value, t types.Type, seen map[[2]*Cell]bool, depth
 		if !ok || x.sort != y.sort {
 			return tt.False
 		}
+		if x.sort.K == KFP {
+			return in.congEq(x, y)
+		}
 		return tt.Eq(x, y)
 	case Str:
 		y, ok := b.(Str)
@@ -682,6 +688,27 @@ func (in *Interp) deepEq(a, b Value, t types.Type, seen map[[2]*Cell]bool, depth
 
 // timeEq compares two time.Time struct values as instants (same as Time.Equal).
 func (in *Interp) timeEq(a, b Value) *Term {
+	x, y := a.(StructV), b.(StructV)
+	tt := in.tt
+	xw, yw := x.f[0].(*Term), y.f[0].(*Term)
+	mono := tt.Const(64, 1<<63)
+	// times carrying a monotonic clock reading are compared by the real method
+	if tt.Bin(OpBAnd, xw, mono) != tt.Const(64, 0) || tt.Bin(OpBAnd, yw, mono) != tt.Const(64, 0) {
+		return in.timeEqReal(a, b)
+	}
+	// without the monotonic bit both are in normal form (wall = nanoseconds, ext = seconds since year 1)
+	return tt.And(in.congEqAny(xw, yw), in.congEqAny(x.f[1].(*Term), y.f[1].(*Term)))
+}
+
+func (in *Interp) congEqAny(a, b *Term) *Term {
+	if in.needsCong(a) || in.needsCong(b) {
+		return in.congEq(a, b)
+	}
+	return in.tt.Eq(a, b)
+}
+
+func (in *Interp) timeEqReal(a, b Value) *Term {
+
 	tp := in.prog.ImportedPackage("time")
 	if tp == nil {
 		in.unsupported("time package not loaded")
@@ -759,6 +786,14 @@ func (in *Interp) copyCell(c *Cell, cells map[*Cell]*Cell, maps map[*MapObj]*Map
 	in.allocs++
 	n := &Cell{id: in.allocs, agg: c.agg, typ: c.typ}
 	cells[c] = n
+	if c.big != nil {
+		n.big = map[int]*Cell{}
+		n.bigN = c.bigN
+		for i, s := range c.big {
+			n.big[i] = in.copyCell(s, cells, maps)
+		}
+		return n
+	}
 	if c.agg == 0 {
 		n.v = in.deepCopy(c.v, cells, maps)
 	} else {
@@ -777,4 +812,74 @@ func (in *Interp) loadPolyDump(target Value) {
 	if in.ex != nil && in.ex.polyDump != nil {
 		in.ex.polyDump(in, target)
 	}
+}
+
+// congEq is equality strengthened by congruence: two applications of the same
+// floating-point operation (or of integer add/multiply feeding one) are declared equal
+// when their arguments are equal. This is a sufficient condition only; a
+// counterexample produced under it is always replayed natively before it is
+// reported (the solvers available here do not decide fp.mul/to_fp equalities).
+func (in *Interp) congEq(a, b *Term) *Term {
+	tt := in.tt
+	if a == b {
+		return tt.True
+	}
+	if a.sort != b.sort {
+		return tt.False
+	}
+	if a.IsConst() && b.IsConst() {
+		return tt.Bool(a.val == b.val)
+	}
+	if a.op == b.op && a.val == b.val && len(a.args) == len(b.args) && len(a.args) > 0 && in.needsCong(a) {
+		in.stubsHit["congruence-equality (fp / mul / div kernels)"]++
+		r := tt.True
+		for i := range a.args {
+			r = tt.And(r, in.congEq(a.args[i], b.args[i]))
+		}
+		return r
+	}
+	return tt.Eq(a, b)
+}
+
+// time.Unix with a symbolic nanosecond argument: the real function normalises with
+// a division inside data-dependent branches; this computes the same normal form
+// (floor division / modulus by 1e9) as branch-free terms. Concrete calls run the real code.
+func init() {
+	intrinsics["time.Unix"] = func(in *Interp, c *callCtx) Value {
+		sec, nsec := c.args[0].(*Term), c.args[1].(*Term)
+		tt := in.tt
+		tp := in.prog.ImportedPackage("time")
+		if nsec.IsConst() || tp == nil {
+			// run the real code
+			fn := c.fn
+			in.pushFrame(c.g, fn, c.args, nil, c.retTo)
+			panic(framePushed{})
+		}
+		in.stubsHit["time.Unix: branch-free normalisation"]++
+		e9 := tt.Const(64, 1000000000)
+		q := tt.Bin(OpSDiv, nsec, e9)
+		r := tt.Bin(OpSRem, nsec, e9)
+		neg := tt.Cmp(OpSlt, r, tt.Const(64, 0))
+		secOut := tt.Bin(OpSub, tt.Bin(OpAdd, sec, q), tt.Ite(neg, tt.Const(64, 1), tt.Const(64, 0)))
+		nsOut := tt.Ite(neg, tt.Bin(OpAdd, r, e9), r)
+		wall := tt.Zext(tt.Extract(nsOut, 29, 0), 64)
+		const unixToInternal = (1969*365 + 1969/4 - 1969/100 + 1969/400) * 86400
+		ext := tt.Bin(OpAdd, secOut, tt.Const(64, uint64(int64(unixToInternal))))
+		local := in.load(in.global(tp.Var("Local")))
+		return StructV{[]Value{wall, ext, local}}
+	}
+}
+
+type framePushed struct{}
+
+// needsCong: the term contains floating point or multiply/divide kernels that the
+// installed solvers do not decide when mixed with bit-level decoding.
+func (in *Interp) needsCong(t *Term) bool {
+	if t.sort.K == KFP {
+		return true
+	}
+	if in.hardMemo == nil {
+		in.hardMemo = map[int]bool{}
+	}
+	return in.tt.usesHardArith(t, in.hardMemo)
 }
